@@ -245,6 +245,8 @@ type step struct {
 	A  string `json:"a"`
 	PC string `json:"pc"`
 	At string `json:"at"`
+	N  string `json:"n"` // C36 view change: node n learns that m is the coordinator
+	M  string `json:"m"`
 }
 
 type behaviour struct {
@@ -356,6 +358,40 @@ func main() {
 	}
 	out, _ := json.Marshal(st)
 	fmt.Println(string(out))
+}
+
+// drain is called after FreeRun: it waits until the named logical threads have finished. A thread that was released
+// without being awaited and has parked at a gate in the meantime is released again (the gates are open now).
+func drain(s *sched.Sched, names []string, d time.Duration) bool {
+	deadline := time.Now().Add(d)
+	done := map[string]bool{}
+	for {
+		for _, n := range names {
+			if done[n] {
+				continue
+			}
+			p, parked := s.Pending(n)
+			if !parked {
+				pp, ok := s.TryAwait(n, 100*time.Microsecond)
+				if !ok {
+					continue
+				}
+				p = pp
+			}
+			if p.Done {
+				done[n] = true
+			} else {
+				_ = s.Release(n)
+			}
+		}
+		if len(done) == len(names) {
+			return true
+		}
+		if time.Now().After(deadline) {
+			return false
+		}
+		time.Sleep(300 * time.Microsecond)
+	}
 }
 
 var _ = sync.Mutex{}
